@@ -46,6 +46,9 @@ def c17(res, tier, seed, replay):
             runs.append({"name": f"fan-wide-{servers}s-{s}", "timeout": 900,
                          "args": ["-wide", "-servers", servers, "-maxshard", 20, "-seed", seed * 100 + 70 + s * 10 + servers,
                                   "-hist", 2 if tier == "quick" else 6, "-batches", 80]})
+        # connections that grow old while requests are in flight: 6.5 s of small update requests back to back
+        runs.append({"name": f"fan-soak-{s}", "timeout": 600,
+                     "args": ["-servers", 2, "-maxshard", 3, "-seed", seed * 100 + 90 + s, "-hist", 1, "-batches", 10, "-soak-ms", 6500]})
         for servers in (2, 3):
             runs.append({"name": f"fan-kill-{servers}s-{s}", "timeout": 600,
                          "args": ["-kill", "-servers", servers, "-maxshard", 3, "-seed", seed * 100 + 50 + s * 10 + servers,
